@@ -76,6 +76,19 @@ def strategy(tier):
     return strat()
 
 
+def enumerate_cases(tier, shard, nshards, seed):
+    """Grids on the trivia-dense and template programs: every node x {remove, cut under each option set; replace by a few donors}, and every container x
+    insertion at every position x two donors x option sets (docstr, trivia, pep8space, elif_, pars)."""
+
+    from .. import gen
+
+    progs = gen.TRIVIA_PROGRAMS + gen.SYN_PROGRAMS
+    thin = 2 if tier == 'quick' else 1
+
+    yield from em.single_edit_grid(progs, tier, shard, nshards, seed, n_expr=3, thin=thin, remove_optsets=em.GRID_OPTSETS, cut=True)
+    yield from em.slice_edit_grid(progs, tier, shard, nshards, seed, thin=thin, only_ops=('insert',))
+
+
 def trivia_split(opt):
     """-> (leading comments kind, trailing comments kind) in {'none', 'block', 'all', 'line'} from a trivia option value,
     per docs d06."""
@@ -293,9 +306,21 @@ def compute_amax(old, toks, node, parent, field, idx, opts, op):
         elif sole and field in ('orelse', 'finalbody') and j >= 3 and toks[j - 1][0] == tokenize.COMMENT and toks[j - 2][1] == ':' and toks[j - 3][1] in ('else', 'finally'):
             j -= 3  # `else:  # comment` header with line comment
 
+            if ld != 'none':  # same anchoring of the leading trivia at the header line
+                first_ln = toks[j][2][0]
+
+                while j > 0 and own_line_comment(j - 1):
+                    ln = toks[j - 1][2][0]
+
+                    if ld == 'block' and ln != first_ln - 1:
+                        break
+
+                    j -= 1
+                    first_ln = ln
+
         i0 = j
 
-    if is_stmt and hasattr(node, 'body') and i1 + 1 < len(toks) and toks[i1 + 1][0] == tokenize.COMMENT and toks[i1 + 1][2][0] == toks[i1][3][0]:
+    if is_stmt and (hasattr(node, 'body') or hasattr(node, 'cases')) and i1 + 1 < len(toks) and toks[i1 + 1][0] == tokenize.COMMENT and toks[i1 + 1][2][0] == toks[i1][3][0]:
         i1 += 1  # line comment of the last child of a block statement is inside the block's bounding location (docs d02 .bloc)
 
     # one adjoining separator per side; comments between the element and its separator are inside the allowed region
